@@ -825,8 +825,10 @@ class Container:
             raise ValueError("Invalid quantity unit.")
 
         source_container, to = deepcopy(source_container), deepcopy(self)
+        transferred = {}
         for substance, amount in source_container.contents.items():
             to_transfer = amount * ratio
+            transferred[substance] = to_transfer
             to.contents[substance] = round(to.contents.get(substance, 0) + to_transfer,
                                            config.internal_precision)
             source_container.contents[substance] = round(source_container.contents[substance] - to_transfer,
@@ -839,11 +841,11 @@ class Container:
             transfer = Unit.convert_from_storage(ratio * source_container.volume, 'L')
             transfer, unit = Unit.get_human_readable_unit(transfer, 'L')
         else:
-            # total mass in source container times ratio
+            # total mass that was transferred
             mass = sum(Unit.convert(substance,
                                     f"{amount} {config.moles_storage_unit if not substance.is_enzyme() else 'U'}",
-                                    "mg") for substance, amount in source_container.contents.items())
-            transfer, unit = Unit.get_human_readable_unit(mass * ratio, 'mg')
+                                    "mg") for substance, amount in transferred.items())
+            transfer, unit = Unit.get_human_readable_unit(mass, 'mg')
         precision = config.precisions[unit] if unit in config.precisions else config.precisions['default']
         to.instructions += f"\nTransfer {round(transfer, precision)} {unit} of {source_container.name} to {to.name}"
         to.volume = 0
